@@ -500,6 +500,14 @@ func writeReplay(out *propOutcome, ob *Obligation, vc *VC, withModel bool) viola
 	// ask for a model
 	script := vc.obligationScript(ob, true)
 	res := Solve(script, 10, []int{0, 1})
+	if res.Status != "sat" {
+		// quantified background axioms keep the solvers from ever answering "sat"; a candidate input is
+		// enough here, because only a replay on the real code can turn it into a confirmed failing input
+		if r2 := Solve(relaxedScript(script), 10, []int{0, 1}); r2.Status == "sat" {
+			res = r2
+			rep["model_from"] = "relaxed query (quantified assumptions dropped); a candidate only - see replay"
+		}
+	}
 	rep["solver_output"] = truncate(res.Output, 20000)
 	if res.Status == "sat" {
 		inputs := modelInputs(res.Output, vc)
@@ -582,4 +590,23 @@ func crossSummary(out *propOutcome) map[string]any {
 	return map[string]any{"enabled": true, "obligations_rechecked": checked, "confirmed_by_a_second_solver_family": confirmed,
 		"confirmations_by_backend": by, "disagreements": disagreements,
 		"note": "each other solver family (z3 5.1.0, z3 4.8.12, cvc5 1.0.3) re-decides the script alone, 20 s; a timeout is not a disagreement"}
+}
+
+// relaxedScript drops every quantified assumption (not the goal, which is the last assert) from a script.
+func relaxedScript(script string) string {
+	lines := strings.Split(script, "\n")
+	last := -1
+	for i, l := range lines {
+		if strings.HasPrefix(l, "(assert ") {
+			last = i
+		}
+	}
+	var out []string
+	for i, l := range lines {
+		if i != last && strings.HasPrefix(l, "(assert ") && (strings.Contains(l, "(forall ") || strings.Contains(l, "(exists ")) {
+			continue
+		}
+		out = append(out, l)
+	}
+	return strings.Join(out, "\n")
 }
